@@ -1,10 +1,10 @@
 SPECIFICATION Spec
 CONSTANTS
   MaxBody = 3
-  Shapes <- ShapesAll
+  Shapes <- ShapesQ2
   Rounds = 2
-  RESETLAST = FALSE
-  HDRDATA = TRUE
+  RESETLAST = TRUE
+  HDRDATA = FALSE
   MaxEmpty = 1
   GEN = FALSE
 INVARIANTS C02_DeliveredIsCompletePrefix C03_AtEOM C03_NoCarryOver C11_HooksOnce C11_NeverDelivered NoDesync NoSpurious
